@@ -29,6 +29,13 @@ def run(ctx: Ctx) -> None:
     rep.floor("C16.R2", n2, 3)
     S.writer_reader_agree(ctx, v, "C16.R2")
     S.mkdir_idempotent(ctx, v, "C16.R4")
+    from .c12 import cache_ownership
+    rep.rule("C16.R7", "as C12.R2(ownership): the in-memory object cache of a store is built by that store and never handed to a store "
+                       "over another (relative, re-resolved) internal directory")
+    cache_ownership(ctx, "C16.R7")
+    rep.rule("C16.R6", "an existing path entry is kept only if its whole target equals the blob location under this store's internal directory")
+    n6 = S.link_current_test(ctx, v, "C16.R6")
+    rep.floor("C16.R6", n6, 0)
     decode_set_store_local(ctx, v)
     # a second data view of a shared internal directory gets all its paths: the complete map is committed even when
     # every blob is already present (cache hit)
